@@ -238,6 +238,28 @@ Definition label_wf (l : label) : bool :=
 Definition name_wf (ls : list label) : bool :=
   forallb label_wf ls && (len (encode ls) <=? 255).
 
+(* the label walk both wire functions perform, as a decoder: Some labels
+   exactly when the walk accepts (used by the proofs and by the specification
+   oracle of Run.v) *)
+Fixpoint parse_loop (fuel : nat) (rest : bytes) : option (list label) :=
+  match fuel with
+  | O => None
+  | S fuel' =>
+      match rest with
+      | [] => None
+      | c :: r =>
+          if c =? 0 then match r with [] => Some [] | _ :: _ => None end
+          else if negb (N.land c 192 =? 0) then None
+          else if len r <? c then None
+          else match parse_loop fuel' (skipn (N.to_nat c) r) with
+               | Some ls => Some (firstn (N.to_nat c) r :: ls)
+               | None => None
+               end
+      end
+  end.
+Definition parse_wire (w : bytes) : option (list label) :=
+  if (len w =? 0) || (255 <? len w) then None else parse_loop (S (length w)) w.
+
 (* ------------------------------------------------------------------ *)
 (* Part B.1  scopes: netip.Prefix.Masked, normalizeKeyScope             *)
 
@@ -686,18 +708,70 @@ Section Store.
 
   Definition purge (q : question) (s : store) : store := purge_answers q (purge_cuts q (purge_failures q s)).
 
-  (* RecordQuestion / RecordZone on a fresh generation (streak logic is C13's) *)
+  (* failureEntriesSameKey *)
+  Definition failure_same_key (a b : fentry) : bool :=
+    match f_kind a, f_kind b with
+    | FQuestion, FQuestion =>
+        question_eqb_exact (f_q a) (f_q b) && Bool.eqb (f_cd a) (f_cd b) && oscope_eqb (f_scope a) (f_scope b)
+    | FZone, FZone => bytes_eqb (f_zone a) (f_zone b) && (f_zclass a =? f_zclass b)
+    | _, _ => false
+    end.
+  (* FailureCache.record: a different key under the same hash is replaced; the
+     same key keeps its identity (streak / retry-after arithmetic is C13's) *)
+  Definition record_failure (k : K) (cand : fentry) (s : store) : store :=
+    match kget k (st_fail s) with
+    | Some cur =>
+        if failure_same_key cur cand then s
+        else mk_store (st_pos s) (st_neg s) (kset k cand (st_fail s)) (st_cuts s) (st_cuthash s)
+    | None => mk_store (st_pos s) (st_neg s) (kset k cand (st_fail s)) (st_cuts s) (st_cuthash s)
+    end.
   Definition record_fquestion (q : question) (cd : bool) (p : option scope) (id : N) (s : store) : store :=
     let q' := mk_q (canonical (q_name q)) (q_type q) (q_class q) in
     let p' := normalize_scope p in
-    mk_store (st_pos s) (st_neg s)
-      (kset (salt_fq (H (fq_pre q' cd p'))) (mk_fentry FQuestion q' cd p' [] 0 true id) (st_fail s))
-      (st_cuts s) (st_cuthash s).
+    record_failure (salt_fq (H (fq_pre q' cd p'))) (mk_fentry FQuestion q' cd p' [] 0 true id) s.
   Definition record_fzone (zone : bytes) (qclass : N) (id : N) (s : store) : store :=
     let z := canonical zone in
+    record_failure (salt_fz (H (fz_pre z qclass))) (mk_fentry FZone (mk_q [] 0 0) false None z qclass true id) s.
+
+  (* a failure entry placed directly under the hash of ANOTHER failure key (what a
+     64-bit collision between two failure keys looks like) *)
+  Definition seed_fquestion (kq : question) (kcd : bool) (kp : option scope)
+                            (q : question) (cd : bool) (p : option scope) (id : N) (s : store) : store :=
+    let kq' := mk_q (canonical (q_name kq)) (q_type kq) (q_class kq) in
+    let q' := mk_q (canonical (q_name q)) (q_type q) (q_class q) in
     mk_store (st_pos s) (st_neg s)
-      (kset (salt_fz (H (fz_pre z qclass))) (mk_fentry FZone (mk_q [] 0 0) false None z qclass true id) (st_fail s))
+      (kset (salt_fq (H (fq_pre kq' kcd (normalize_scope kp)))) (mk_fentry FQuestion q' cd (normalize_scope p) [] 0 true id) (st_fail s))
       (st_cuts s) (st_cuthash s).
+  Definition seed_fzone (kzone : bytes) (kclass : N) (zone : bytes) (qclass : N) (id : N) (s : store) : store :=
+    mk_store (st_pos s) (st_neg s)
+      (kset (salt_fz (H (fz_pre (canonical kzone) kclass))) (mk_fentry FZone (mk_q [] 0 0) false None (canonical zone) qclass true id) (st_fail s))
+      (st_cuts s) (st_cuthash s).
+
+  (* FailureCache.ResetQuestion: delete the exact history when the full key still matches *)
+  Definition reset_fquestion (q : question) (cd : bool) (p : option scope) (s : store) : store :=
+    let q' := mk_q (canonical (q_name q)) (q_type q) (q_class q) in
+    let p' := normalize_scope p in
+    let k := salt_fq (H (fq_pre q' cd p')) in
+    match kget k (st_fail s) with
+    | Some fe =>
+        match f_kind fe with
+        | FQuestion =>
+            if question_eqb_exact (f_q fe) q' && Bool.eqb (f_cd fe) cd && oscope_eqb (f_scope fe) p'
+            then mk_store (st_pos s) (st_neg s) (kremove k (st_fail s)) (st_cuts s) (st_cuthash s)
+            else s
+        | FZone => s
+        end
+    | None => s
+    end.
+
+  (* Store.SetFromResponseWithKey / SetFromResponseScoped on a cacheable answer:
+     file the entry, and for an unscoped write reset the question's failure history *)
+  Definition store_set_from_response (k : K) (rq : question) (key_cd : bool) (p : option scope) (id : N) (alias : option bytes) (s : store) : store :=
+    let s1 := set_from_response k rq key_cd p id alias s in
+    match normalize_scope p with
+    | None => reset_fquestion rq key_cd None s1
+    | Some _ => s1
+    end.
 
   (* nxDomainCutCache.record of an accepted proof: replaces the same (name,class), indexes by hash *)
   Definition record_cut (name : bytes) (qclass : N) (wire_ok : bool) (id : N) (s : store) : store :=
@@ -713,4 +787,75 @@ Section Store.
     mk_store (st_pos s) (st_neg s) (st_fail s) cuts'
       (if wire_ok then kset k c hash0 else hash0).
 
+  (* the hash index pointing at a cut recorded for ANOTHER (name, class) *)
+  Fixpoint cut_by_id (id : N) (l : list cut) : option cut :=
+    match l with
+    | [] => None
+    | c :: r => if c_id c =? id then Some c else cut_by_id id r
+    end.
+  Definition forge_cuthash (kname : bytes) (kclass : N) (id : N) (s : store) : store :=
+    match cut_by_id id (st_cuts s) with
+    | Some c => mk_store (st_pos s) (st_neg s) (st_fail s) (st_cuts s)
+                  (kset (salt_cut (H (cut_pre (canonical kname) kclass))) c (st_cuthash s))
+    | None => s
+    end.
+
+  (* ---- what a client of the edns+cache pipeline observes *)
+  Inductive outcome := OMiss | OHit (id : N) | OCut (id : N) | OFail (id : N).
+
+  Definition is_some {A} (o : option A) : bool := match o with Some _ => true | None => false end.
+
+  (* the Msg body of Cache.ServeDNS after validation: exact answers (scoped,
+     shared), subtree cut (never for CD or ECS requests), failure state *)
+  Definition msg_ladder (s : store) (q : question) (cd : bool) (has_ecs : bool) (client : option scope) : outcome :=
+    match serve_msg_exact s q cd client with
+    | Some e => OHit (e_id e)
+    | None =>
+        match (if cd || has_ecs then None else cut_lookup s q) with
+        | Some c => OCut (c_id c)
+        | None =>
+            match failure_lookup s q cd client with
+            | Some fe => OFail (f_id fe)
+            | None => OMiss
+            end
+        end
+    end.
+
+  (* Cache.ServeDNS: a wire-born request without ECS walks the wire ladder
+     first (exact entry, cut, failure) and otherwise materialises;
+     requestScope = client address . Prefix(source bits) *)
+  Definition serve_pipeline (s : store) (wireborn : bool) (w : bytes) (q : question) (cd : bool) (client : option scope) : outcome :=
+    let client' := option_map (fun c => addr_prefix (sc_is4 c) (sc_addr c) (sc_bits c)) client in
+    let has_ecs := is_some client in
+    if wireborn && negb has_ecs then
+      match serve_wire_exact s w (q_type q) (q_class q) cd with
+      | Some e => OHit (e_id e)
+      | None =>
+          match (if cd then None else cut_lookup_wire s w (q_class q)) with
+          | Some c => OCut (c_id c)
+          | None =>
+              match failure_lookup_wire s w (q_type q) (q_class q) cd with
+              | Some fe => OFail (f_id fe)
+              | None => msg_ladder s q cd has_ecs client'
+              end
+          end
+      end
+    else msg_ladder s q cd has_ecs client'.
+
+  (* Store.Get — the resolver-internal route (DS / DNSKEY lookups) *)
+  Definition store_get (s : store) (q : question) (cd : bool) : outcome :=
+    match store_lookup s q cd with
+    | Some e => OHit (e_id e)
+    | None =>
+        match (if cd then None else cut_lookup s q) with
+        | Some c => OCut (c_id c)
+        | None =>
+            match failure_lookup s q cd None with
+            | Some fe => OFail (f_id fe)
+            | None => OMiss
+            end
+        end
+    end.
+
 End Store.
+
